@@ -17,6 +17,8 @@ def type_range(ty):
 
 
 class Ranger:
+    table_max = {}
+
     def __init__(self, facts, types=None):
         self.f = facts
         self.types = types or {}
@@ -158,6 +160,44 @@ class Ranger:
                         b = (tr[0] if lo is None else lo, tr[1] if hi is None else hi)
         return b
 
+    def table_popcount_bound(self, s):
+        """|S| <= the largest entry of a geometry table when S is contained in a look-up of that table
+        (e.g. at most 6 squares lie between two squares); 64 otherwise"""
+        best = 64
+        terms = []
+
+        def conj(x):
+            if isinstance(x, tuple) and x and x[0] == "and":
+                conj(x[1])
+                conj(x[2])
+            elif isinstance(x, tuple) and x and x[0] == "bool":
+                pass
+            else:
+                terms.append(x)
+        conj(s)
+        for x in terms:
+            if isinstance(x, tuple) and x and x[0] in ("between", "knight", "kingmoves", "pawnatt", "line") or \
+                    (isinstance(x, tuple) and x and x[0] == "call" and x[1].startswith("cozy_chess::moves::get_")):
+                nm = {"between": "get_between_rays", "knight": "get_knight_moves", "kingmoves": "get_king_moves", "pawnatt": "get_pawn_attacks",
+                      "line": "get_line_rays"}.get(x[0]) or x[1].rsplit("::", 1)[-1]
+                b = self.table_max.get(nm)
+                if b is None:
+                    b = 64
+                    for k_, c_ in self.f.consts.items():
+                        if k_.startswith("cozy_chess::moves::%s::" % nm) and "dec" in c_:
+                            def walk(d):
+                                if isinstance(d, int):
+                                    return bin(d).count("1")
+                                if isinstance(d, list):
+                                    return max([walk(y) for y in d] or [0])
+                                if isinstance(d, dict) and "fields" in d:
+                                    return max([walk(v) for _, v in d["fields"]] or [0])
+                                return 0
+                            b = min(b, walk(c_["dec"]))
+                    self.table_max[nm] = b
+                best = min(best, b)
+        return best
+
     def _structural(self, e):
         k = e[0]
         if k == "int":
@@ -170,7 +210,22 @@ class Ranger:
         if k == "enum":
             return None
         if k == "len":
-            return (0, 64)
+            return (0, self.table_popcount_bound(e[1]))
+        if k == "call" and e[1].rsplit("::", 1)[-1] in ("trailing_zeros", "leading_zeros", "count_ones", "count_zeros") and len(e[2]) == 1:
+            hi = 64
+            tail = e[1].rsplit("::", 1)[-1]
+            if tail in ("trailing_zeros", "leading_zeros"):
+                # a non-zero argument has a set bit: at most 63 zeros before it
+                x = e[2][0]
+                for c in getattr(self, "_conds", ()):
+                    ce, v = c[0], c[1]
+                    if ce[0] == "bin" and ce[1] in ("Eq", "Ne") and isinstance(v, int) and x in (ce[2], ce[3]):
+                        o = ce[3] if ce[2] == x else ce[2]
+                        if o[0] == "int" and o[1] == 0 and ((ce[1] == "Ne") == bool(v)):
+                            hi = 63
+                    if ce[0] == "isempty" and isinstance(v, int) and v == 0 and (ce[1] == x or ("field", ce[1], "0") == x or ce[1] == ("bb", x)):
+                        hi = 63
+            return (0, hi)
         if k == "cast":
             inner = self._bounds(e[2])
             tr = type_range(e[1])
